@@ -5,7 +5,9 @@ cd /verif
 seeds="$@"; [ -z "$seeds" ] && seeds=$(ls seeded)
 for s in $seeds; do
   d=/verif/seeded/$s; [ -f $d/patch.diff ] || continue
-  pid=$(python3 -c "import json;print(json.load(open('$d/meta.json'))['property'])")
+  # the check that judges the change: its own property's, unless meta.json names another one (judged_by_check) because
+  # the broken clause belongs to that property (explained in the seed's meta.json and in DESIGN.md)
+  pid=$(python3 -c "import json;m=json.load(open('$d/meta.json'));print(m.get('judged_by_check',m['property']))")
   if ! git -C /repo apply --check $d/patch.diff 2>/dev/null; then echo "$s: PATCH DOES NOT APPLY"; continue; fi
   git -C /repo apply $d/patch.diff
   out=$(./check $pid quick 2>&1); rc=$?
